@@ -83,7 +83,7 @@ func c06Scalars() []c06Scalar {
 		out = append(out, c06Scalar{YAML: yamlDQ(s), JSON: string(b), Kind: "str", Str: s})
 	}
 	ints := [][2]string{{"0", "0"}, {"-0", "0"}, {"1", "1"}, {"-1", "-1"}, {"9007199254740992", "9007199254740992"}, {"9007199254740993", "9007199254740993"}, {"9223372036854775807", "9223372036854775807"},
-		{"-9223372036854775808", "-9223372036854775808"}, {"0x1F", "31"}, {"0o17", "15"}, {"123456789012", "123456789012"}, }
+		{"-9223372036854775808", "-9223372036854775808"}, {"0x1F", "31"}, {"0o17", "15"}, {"123456789012", "123456789012"}}
 	for _, i := range ints {
 		js := i[1]
 		out = append(out, c06Scalar{YAML: i[0], JSON: js, Kind: "int", Num: i[1]})
